@@ -31,8 +31,9 @@ void vp_c18_owner_str(char *out, uint32_t code) { ASSUME(code == 'o' || code == 
 void vp_c18_key_str(char *out, uint32_t code) { ASSUME(code == 'X' || (code >= 'A' && code <= 'D'));
   *(QAD**)out = code == 'A' ? c18_uk[0] : code == 'B' ? c18_uk[1] : code == 'C' ? c18_uk[2] : code == 'D' ? c18_uk[3] : c18_uk[4]; }
 /* code of a 1-unit string / 1-byte array (0 for anything else) */
-static uint32_t c18_code16(QAD *d) { if (d->f1 != 1) return 0; return d->f3 == QS_OFF ? SD(d)[0] : qs_chars(d)[0]; }
-static uint32_t c18_code8(QAD *d) { if (d->f1 != 1) return 0; return d->f3 == QB_OFF ? BD(d)[0] : qb_bytes(d)[0]; }
+/* only MODEL blocks carry a code (static literals and foreign blocks are "unknown" = 0: callers fall back to the generic comparison or flag a model limit) */
+static uint32_t c18_code16(QAD *d) { if (d->f3 != QS_OFF || d->f1 != 1) return 0; return SD(d)[0]; }
+static uint32_t c18_code8(QAD *d) { if (d->f3 != QB_OFF || d->f1 != 1) return 0; return BD(d)[0]; }
 uint32_t vp_c18_jid_code(char *s) { return c18_code16(*(QAD**)s); }
 uint32_t vp_c18_key_code(char *s) { return c18_code8(*(QAD**)s); }
 
@@ -51,24 +52,32 @@ uint32_t vp_c18_list_key(char *l, uint32_t j) { struct ld *d = LD(l); ASSUME(j <
 static char *c18_dummy_owner;   /* d pointer of a default-constructed QXmppTrustMessageKeyOwner: filler of unused QList<QXmppTrustMessageKeyOwner> slots */
 void vp_c18_set_dummy_owner(char *o) { c18_dummy_owner = *(char**)o; }
 char* vp_c18_list_owner(char *l, uint32_t j) { struct ld *d = LD(l); ASSUME(j < LIST_CAP); return (char*)&d->array[j]; }
-static struct ld *c18_list_own(char *self, char *filler) { struct ld *d = LD(self);
-  if (d->ref != 1) { struct ld *t = malloc(sizeof(struct ld)); ASSUME(t != 0); t->ref = 1; t->alloc = LIST_CAP; t->begin = 0; t->end = d->end - d->begin;
-    if (d->alloc != 0) { for (uint32_t j = 0; j < LIST_CAP; j++) { if (j < t->end) { QAD *e = (QAD*)d->array[d->begin + j]; qad_ref(e); t->array[j] = (char*)e; } else t->array[j] = filler; } }
-    else { for (uint32_t j = 0; j < LIST_CAP; j++) t->array[j] = filler; }
+#ifdef HAVE_G__ZN9QListData11shared_nullE
+#define C18_IS_NULL_LIST(d) ((char*)(d) == (char*)&G__ZN9QListData11shared_nullE)
+#else
+#define C18_IS_NULL_LIST(d) 0
+#endif
+static struct ld *c18_list_fresh(char *filler) { struct ld *t = malloc(sizeof(struct ld)); ASSUME(t != 0); t->ref = 1; t->alloc = LIST_CAP; t->begin = 0; t->end = 0;
+  for (uint32_t j = 0; j < LIST_CAP; j++) t->array[j] = filler; return t; }
+/* makes the list's block private and appendable; the common case (first append to a default-constructed list: the static null
+   block, recognised by ADDRESS so that symex takes one path only) allocates a block whose unused slots hold `filler` */
+static void c18_list_own(char *self, char *filler) { struct ld *d = LD(self);
+  if (C18_IS_NULL_LIST(d)) { LD(self) = c18_list_fresh(filler); return; }
+  if (d->ref != 1) { struct ld *t = c18_list_fresh(filler); t->end = d->end - d->begin;
+    for (uint32_t j = 0; j < LIST_CAP; j++) { if (j < t->end) { QAD *e = (QAD*)d->array[d->begin + j]; qad_ref(e); t->array[j] = (char*)e; } }
     if (d->ref != (uint32_t)-1 && d->ref != 0) d->ref--;
-    LD(self) = t; d = t; }
-  return d; }
+    LD(self) = t; } }
 /* fillers of unused list slots: empty MODEL blocks of the element's own block type (typed reads of every merge alternative fold) */
 static QAD *c18_empty_qb, *c18_empty_qs;
 void vp_c18_init(void) { c18_uo[0] = c18_mk16('o'); c18_uo[1] = c18_mk16('c'); c18_uk[0] = c18_mk8('A'); c18_uk[1] = c18_mk8('B'); c18_uk[2] = c18_mk8('C'); c18_uk[3] = c18_mk8('D'); c18_uk[4] = c18_mk8('X');
   c18_empty_qb = qb_new(0, 0); REF(c18_empty_qb) = (uint32_t)-1; c18_empty_qs = qs_new(0, 0); qs_seal(c18_empty_qs, 0); REF(c18_empty_qs) = (uint32_t)-1; }
-static void c18_list_append(char *self, char *t, char *filler) { struct ld *d = c18_list_own(self, filler); uint32_t e = d->end; ASSERT(e < LIST_CAP, "QList capacity of the model exceeded"); ASSUME(e < LIST_CAP);
+static void c18_list_append(char *self, char *t, char *filler) { c18_list_own(self, filler); struct ld *d = LD(self); uint32_t e = d->end; ASSERT(e < LIST_CAP, "QList capacity of the model exceeded"); ASSUME(e < LIST_CAP);
   QAD *x = *(QAD**)t; qad_ref(x); d->array[e] = (char*)x; d->end = e + 1; }
 void _ZN5QListI10QByteArrayE6appendERKS0_(char *self, char *t) { c18_list_append(self, t, (char*)c18_empty_qb); }
 void _ZN5QListI7QStringE6appendERKS0_(char *self, char *t) { c18_list_append(self, t, (char*)c18_empty_qs); }
 /* QList<QXmppTrustMessageKeyOwner> (one QSharedDataPointer per node; reference count = first word of the private object) */
 void _ZN5QListI25QXmppTrustMessageKeyOwnerE6appendERKS0_(char *self, char *t) { struct ld *d = LD(self);
-  ASSERT(d->alloc == 0 || d->ref == 1, "C18: append to a shared non-empty QList<QXmppTrustMessageKeyOwner>"); d = c18_list_own(self, c18_dummy_owner);
+  ASSERT(C18_IS_NULL_LIST(d) || d->ref == 1, "C18: append to a shared non-empty QList<QXmppTrustMessageKeyOwner>"); if (C18_IS_NULL_LIST(d)) LD(self) = c18_list_fresh(c18_dummy_owner); d = LD(self);
   uint32_t e = d->end; ASSERT(e < LIST_CAP, "QList capacity of the model exceeded"); ASSUME(e < LIST_CAP);
   char *x = *(char**)t; (*(int32_t*)x)++; d->array[e] = x; d->end = e + 1; }
 void _ZN5QListI25QXmppTrustMessageKeyOwnerE7deallocEPN9QListData4DataE(char *self, char *d) { }
